@@ -2,6 +2,7 @@
 From RRE Require Import Base.Sx Model.Engine Proofs.EngineProofs.
 From Coq Require Import Sorting.Sorted.
 Open Scope Z_scope.
+From RRE Require Import Model.EngineConc Proofs.EngineHistoryProofs.
 From RRE Require Import Model.EngineConc.
 From RRE Require Import Properties.C02.
 Check (C02_rules_sorted : forall (cond action : Type) (rs : list (rule cond action)),
@@ -33,6 +34,18 @@ Check (C02_no_loop_blocked_while_recorded : forall (cond action store : Type) (e
   memZ n (fired_global e) = true ->
   (forall r, In r rs -> r_name r = n -> r_noloop r = true) ->
   ~ In n (snd (pass eval act rs t e s)) /\ memZ n (fired_global (fst (fst (pass eval act rs t e s)))) = true).
+Check (C02_no_loop_once_per_history : forall ops (es : cengine * store) n,
+  no_reset_for n ops ->
+  NoDup (map r_name (rules (fst es))) ->
+  (forall r, In r (rules (fst es)) -> r_name r = n -> r_noloop r = true) ->
+  (count n (hfired es ops) <= 1)%nat /\
+  (memZ n (fired_global (fst es)) = true -> ~ In n (hfired es ops))).
+Check (C02_no_loop_once_per_execute : forall (cond action store : Type) (eval : cond -> store -> bool)
+    (act : action -> store -> store * list effect) mc t (e : engine cond action) s n,
+  NoDup (map r_name (rules e)) ->
+  (forall r, In r (rules e) -> r_name r = n -> r_noloop r = true) ->
+  (count n (concat (res_trace (snd (execute eval act mc t e s)))) <= 1)%nat /\
+  (memZ n (fired_global e) = true -> ~ In n (concat (res_trace (snd (execute eval act mc t e s)))))).
 Check (C02_activation_group_one : forall (cond action store : Type) (eval : cond -> store -> bool)
     (act : action -> store -> store * list effect) rs t (e : engine cond action) s g,
   (length (filter (fun x => match r_actgroup (snd x) with Some g' => Z.eqb g' g | None => false end)
